@@ -65,6 +65,7 @@ def judge_pointwise(case, sat_level=False):
 
 def rank_group(s, ka, kb, hybrid=False):
     h = s.harness(L=1, cap_bs=max(ka * kb, 1), rank_bits=bits_for(2 * (ka + kb) + 1), hybrid=hybrid, field_bits=(3 if hybrid else 0))
+    s.ri_sites(h)
     A, Abs = h.range_('A', ka, allow_any=True)
     B, Bbs = h.range_('B', kb, allow_any=True)
     v = h.version('v')
